@@ -89,14 +89,7 @@ def expected_form(rules, tl, cat, lemma, val):
                 return None
             if tl == "fr" and val.get("g") not in ("m", "f"):
                 return None
-            if any(set(e) - {"val", "n"} for e in decl):
-                return None
-            pl = [e for e in decl if e.get("n") == "p"]
-            if len(decl) == 1 and "n" not in decl[0]:
-                return stem + decl[0]["val"]
-            if len(pl) != 1:
-                return None
-            return stem + pl[0]["val"]
+            return noun_form(decl, stem, val.get("g") if tl == "fr" else None, "p")
         if tl == "fr":
             if any(set(e) - {"val", "n", "g"} for e in decl):
                 return None
@@ -130,6 +123,39 @@ def expected_form(rules, tl, cat, lemma, val):
     return None
 
 
+def noun_form(decl, stem, g, n):
+    """the form of number n of a noun (French: of gender g) when the table decides it without the scoring of
+    bestMatch: rows keyed by n (and g) only, exactly one row for (g, n), no wildcard"""
+    if any(set(e) - {"val", "n", "g"} for e in decl) or any(e.get("g") == "x" or e.get("n") == "x" for e in decl):
+        return None
+    if len(decl) == 1 and "n" not in decl[0] and "g" not in decl[0]:
+        return stem + decl[0]["val"]
+    rows = [e for e in decl if e.get("n") == n and (g is None or e.get("g", g) == g)]
+    if len(rows) != 1 or (g is None and any("g" in e for e in decl)):
+        return None
+    return stem + rows[0]["val"]
+
+
+def expected_np(rules, tl, lemma, val):
+    """realization of the noun inside a noun phrase with a determiner that agrees with it: French
+    NP(D("un"),N(lemma)) -> "un"/"une" + singular ; English NP(D("the"),N(lemma).n("p")) -> "the" + plural"""
+    if not isinstance(val, dict) or "tab" not in val:
+        return None
+    d = rules["declension"].get(val["tab"])
+    if d is None or not lemma.endswith(d["ending"]):
+        return None
+    stem = lemma[:len(lemma) - len(d["ending"])]
+    if tl == "fr":
+        if val.get("g") not in ("m", "f") or val["tab"] in ("n1", "n15", "n21", "n22", "n26"):
+            return None
+        f = noun_form(d["declension"], stem, val["g"], "s")
+        return None if f is None else ("un " if val["g"] == "m" else "une ") + f
+    if val.get("cnt") not in ("yes", "both"):
+        return None
+    f = noun_form(d["declension"], stem, None, "p")
+    return None if f is None else "the " + f
+
+
 def candidate_vals(rules, L, cat, lemma):
     """well-formed lexicon values for a (new) word of language L whose test form is predictable, distinct forms"""
     out, seen = [], set()
@@ -142,7 +168,9 @@ def candidate_vals(rules, L, cat, lemma):
         if cat == "N":
             if tab in (["n6"] if L == "en" else ["n1", "n15", "n21", "n22", "n26"]):
                 continue
-            val = {"cnt": "yes", "tab": tab} if L == "en" else {"g": "m", "tab": tab}
+            val = {"cnt": "yes", "tab": tab} if L == "en" else {"g": "f" if any(
+                e.get("g") == "f" for e in tabs[tab]["declension"]) and not any(
+                e.get("g") == "m" for e in tabs[tab]["declension"]) else "m", "tab": tab}
         elif cat == "A":
             val = {"tab": tab}
         else:
@@ -225,7 +253,18 @@ class Impl:
     def build_pool(self, rng):
         en, fr = self.LEX.lexicon["en"], self.LEX.lexicon["fr"]
 
+        # words the library's own warning generator is built from ("not found within the English lexicon" = V("find")…):
+        # removing one of them makes reporting ANY unknown word recurse (RecursionError) — a robustness matter of the
+        # warning generator, not of lexicon management; such lemmas are kept out of the pool
+        import re
+        reserved = set()
+        d = os.path.dirname(self.L.__file__)
+        for fn in ("Constituent.py", "ConstituentEn.py", "ConstituentFr.py"):
+            reserved |= set(re.findall(r"[\"']([^\"'\s]+)[\"']", open(os.path.join(d, fn), encoding="utf-8").read()))
+
         def good(l, lemma):
+            if lemma in reserved:
+                return False
             e = (en if l == "en" else fr)[lemma]
             cats = [c for c in CATS if c in e]
             return bool(cats) and all(expected_form(self.rules[l], l, c, lemma, e[c]) is not None for c in cats) \
@@ -240,8 +279,11 @@ class Impl:
                     if len(out) == n:
                         break
             return out
-        both = draw([k for k in en if k in fr], lambda k: good("en", k) and good("fr", k), 6)
-        only_en = draw([k for k in en if k not in fr], lambda k: good("en", k), 6)
+        ldv = lambda k: "ldv" in en[k]          # stock English entries with the top-level flag "ldv": true
+        both = draw([k for k in en if k in fr], lambda k: good("en", k) and good("fr", k) and ldv(k), 2)
+        both += draw([k for k in en if k in fr and k not in both], lambda k: good("en", k) and good("fr", k), 4)
+        only_en = draw([k for k in en if k not in fr], lambda k: good("en", k) and ldv(k), 3)
+        only_en += draw([k for k in en if k not in fr and k not in only_en], lambda k: good("en", k), 3)
         only_fr = draw([k for k in fr if k not in en], lambda k: good("fr", k), 6)
         self.pool = sorted(both + only_en + only_fr)
         for f in FRESH:
@@ -435,7 +477,27 @@ class Impl:
             ans["form"] = t.realize()
         except Exception as e:  # noqa
             ans["form"] = "err:" + type(e).__name__
+        if ans["k"] == "found" and cat == "N":
+            # the noun inside a noun phrase whose determiner agrees with it; then a second NEW terminal with the
+            # language named explicitly, created and realized while the OTHER language is current
+            ans["np"] = self.np_form(lemma, tl, lang)
+            cur = self.LEX.lang
+            (P.loadFr if cur == "en" else P.loadEn)()
+            try:
+                ans["np_other"] = self.np_form(lemma, tl, tl)
+            finally:
+                (P.loadEn if cur == "en" else P.loadFr)()
         return ans
+
+    def np_form(self, lemma, tl, lang):
+        P = self.P
+        kw = [] if lang is None else [lang]
+        try:
+            if tl == "fr":
+                return P.NP(P.D("un", tl), P.N(lemma, *kw), lang=tl).realize()
+            return P.NP(P.D("the", tl), P.N(lemma, *kw).n("p"), lang=tl).realize()
+        except Exception as e:  # noqa
+            return "err:" + type(e).__name__
 
     # ---- one history
     def run_history(self, h, deep_every_step=False, deep=False):
@@ -454,11 +516,22 @@ class Impl:
                 self.ids[id(o)] = ref
         self.next_ref = len(init["en"]) + len(init["fr"])
         (self.P.loadEn if h["cur"] == "en" else self.P.loadFr)()
+        self.cur_seen = h["cur"]
         before, keys_before = self.digest(sl)
         answers, frame = [], None
         for i, step in enumerate(h["steps"]):
             if step["t"] == "term":
-                answers.append({"term": self.term(step)})
+                a = {"term": self.term(step)}
+                after, keys_after = self.digest(sl)      # constructing / realizing a terminal must change nothing
+                bset = [canon(x) for x in before]
+                d = [[x[0], x[1], [x[2], x[3]]] for x in after if canon(x) not in bset]
+                present = {(x[0], x[1]) for x in after}
+                d += [[x[0], x[1], None] for x in before if (x[0], x[1]) not in present]
+                if d or keys_after != keys_before or self.LEX.lang != self.cur_seen:
+                    a["d"] = d
+                    a["cur"] = self.LEX.lang
+                before, keys_before = after, keys_after
+                answers.append(a)
                 continue
             del self.warns[:]
             argc = []
@@ -484,6 +557,7 @@ class Impl:
                 if keys_after[l] != keys_before[l]:
                     a["ord_" + l] = keys_after[l]
             answers.append(a)
+            self.cur_seen = a["cur"]
             before, keys_before = after, keys_after
             if frame is None:
                 frame = self.frame_quick(after, i)
@@ -637,7 +711,20 @@ def oracle_history(W, h, init, answers):
             pred = predict_term(ref.lex, W.rules, tl, cat, lemma)
             if got.get("tl") != tl:
                 return {"sig": "terminal:wrong-language-object", "step": i, "detail": canon(got)}
+            lk = "omitted" if lang is None else ("current" if lang == ref.cur else "other")
+            if "d" in a:
+                return {"sig": "state:term:%s-outcome:lexicon-changed-by-terminal-construction" % got.get("k"), "step": i,
+                        "detail": "creating %s(%r) changed %s (current language now %s)" % (cat, lemma, canon(a["d"]), a.get("cur"))}
             if term_agrees(pred, got):
+                if pred[0] == "found" and cat == "N":
+                    want = expected_np(W.rules[tl], tl, lemma, json.loads(ref.lex[tl][lemma][cat]))
+                    if want is not None and got.get("np") != want:
+                        return {"sig": "terminal:noun-in-NP:lang-%s" % lk, "step": i,
+                                "detail": "NP(D,N(%r)) in %s under current %s: expected %r got %r" % (lemma, tl, ref.cur, want, got.get("np"))}
+                    if want is not None and got.get("np_other") != want:
+                        return {"sig": "terminal:noun-in-NP:created-under-other-current-language", "step": i,
+                                "detail": "NP(D,N(%r,%r)) created and realized while %s is NOT current: expected %r got %r" % (
+                                    lemma, tl, tl, want, got.get("np_other"))}
                 continue
             detail = "expected %r got %s" % (pred, canon(got))
             if norm_lemma(lemma) != lemma:
@@ -738,7 +825,8 @@ def gen_history(rng, W, stratum):
     init = W.init_slice(lemmas)
     # (a stored English entry with the top-level flag "ldv": true is not passed again: as a French entry it is ill-formed
     #  — ConstituentFr.isElidableFr iterates over the categories — which is not this property's business)
-    stored_refs = [r for l in ("en", "fr") for _, r, e in init[l] if not any(c == "ldv" for c, _ in e)]
+    stored_refs = [r for l in ("en", "fr") for _, r, _ in init[l]]
+    en_stored = {r for _, r, _ in init["en"]}
     ref_init = {r: e for l in ("en", "fr") for _, r, e in init[l]}     # the content an object had when first seen
 
     def lang_arg():
@@ -763,12 +851,17 @@ def gen_history(rng, W, stratum):
                 items.append([c, canon(rng.choice(cv))])
         if rng.random() < 0.1 or not items:
             items.append(["Adv", canon({"tab": "b1" if L == "en" else "av"})])
+        if L == "en" and rng.random() < 0.3:      # the top-level flag of 1367 stock English entries
+            items.insert(rng.randint(0, len(items)), ["ldv", "true"])
         return items
 
     def dict_arg(L, lemma):
         if stratum == "alias" and rng.random() < 0.45 and (used_refs or stored_refs):
             r = rng.choice(used_refs + stored_refs)
-            return {"ref": r, "init": ref_init[r]}       # the same Python object again
+            # (an English entry may carry the top-level flag "ldv": as a French entry it is ill-formed —
+            #  ConstituentFr.isElidableFr iterates over the categories — which is not this property's business)
+            if L == "en" or not (r in en_stored or any(c == "ldv" for c, _ in ref_init[r])):
+                return {"ref": r, "init": ref_init[r]}       # the same Python object again
         r = next_ref[0]
         next_ref[0] += 1
         used_refs.append(r)
@@ -873,7 +966,7 @@ def strip_term(a):
     """what is compared with the model: kind, language object, other categories, the value read"""
     if "term" in a:
         t = a["term"]
-        return {"term": {k: t[k] for k in ("k", "tl", "pos", "v") if k in t}}
+        return dict({k: v for k, v in a.items() if k != "term"}, term={k: t[k] for k in ("k", "tl", "pos", "v") if k in t})
     return {k: v for k, v in a.items() if k != "argc"}
 
 
